@@ -106,4 +106,16 @@ CLAIMS = {
                  "reduce the component axis and are invariant under translating the mesh.",
         "note": "Undecided: Fubini equality and integral/extent == mean in floating point. Trusted: numpy reductions; mean == sum/n.",
     },
+    "C07": {
+        "technique": "static analysis: term normal form of the index/corner formulas (floor/ceil corners, half-cell offsets, slice "
+                     "bounds), pairing rules (centre and index from one test point; data and mesh from one conversion), axis-tag "
+                     "coherence in Mesh.sel/Mesh.pad/Field.pad, guard dominance for out-of-region requests",
+        "level": _GEN + "For C07: plane/range selection derives coordinate and index from the same test point and slices [i0, i1+1); "
+                 "Mesh.sel keeps exactly the other axes (plane) or moves only the chosen axis' faces to centre -/+ cell/2 (range) "
+                 "and keeps/clips overlapping subregions on that axis; Mesh.pad moves pmin/pmax by before/after cells of the named "
+                 "axis; extraction by region uses floor/ceil corners; region2slices and Field.__getitem__ slice the matching block; "
+                 "resample keeps the region; requests outside the region are refused.",
+        "note": "Undecided: which cell contains a coordinate that is not exactly representable, nearest-cell ties, point-wise "
+                "equality of values. Validity parity is decided under C08.",
+    },
 }
